@@ -303,3 +303,82 @@ Section NodeErrST.
       intros i Hi. cbn [M m_err] in *. destruct (Hw i Hi) as (W0 & Wi & S0 & Si). destruct (Hb i Hi) as [W1 S1]. rewrite w_max_nodeST. tauto.
   Qed.
 End NodeErrST.
+(* ---- S = T = [] gives back the notions of NodeErrE2E.v *)
+Lemma node_paths_nil_iff V E k Pn : node_pathsST V E [] [] k Pn <-> node_paths V E k Pn.
+Proof. unfold node_pathsST, node_paths. split; intros H i Hi; apply nwalk_nil_iff; exact (H i Hi). Qed.
+Lemma node_kmpe_choice_nil_iff V E fq sc ign isint k Pn w sl :
+  node_kmpe_choiceST V E [] [] fq sc ign isint k Pn w sl <-> node_kmpe_choice V E fq sc ign isint k Pn w sl.
+Proof. unfold node_kmpe_choiceST, node_kmpe_choice. rewrite node_paths_nil_iff. tauto. Qed.
+
+(* ================================================================================================================= *)
+(* non-vacuity: the path 1 -> 2 with node weights 3, 5 (scaling 1), k = 2.  Without additional starts both paths run 1-2, so the
+   optimum of kLeastAbsErrors is 2 and that of kMinPathError 1; with node 2 as additional start the paths 1-2 (weight 3) and 2 (weight 2)
+   explain both nodes exactly: both optima drop to 0. *)
+Definition exPn2 (i : N) : list node := if (i =? 0)%N then [1; 2]%N else [2]%N.
+Definition exw2 (i : N) : Q := if (i =? 0)%N then 3 else 2.
+
+Lemma ex_cost2 Pn w : node_paths exV exE 2 Pn ->
+  node_klae_cost exV exfq exsc [] 2 Pn w == Qabs (3 - (w 0%N + w 1%N)) + Qabs (5 - (w 0%N + w 1%N)).
+Proof.
+  intros HP. destruct (ex_route _ (HP 0%N ltac:(cbn; tauto))) as [M1 M2]. destruct (ex_route _ (HP 1%N ltac:(cbn; tauto))) as [M3 M4].
+  assert (NB : nodes_basic exV [] exsc = [1; 2]%N) by reflexivity.
+  unfold node_klae_cost, node_explains, node_on. rewrite NB. cbn [exsc layers seq map sumq exfq N.eqb Pos.eqb].
+  change (N.of_nat 0) with 0%N. change (N.of_nat 1) with 1%N. rewrite M1, M2, M3, M4. cbn [indq]. unfold exsc.
+  assert (E1 : 3 - (w 0%N * 1 + (w 1%N * 1 + 0)) == 3 - (w 0%N + w 1%N)) by ring.
+  assert (E2 : 5 - (w 0%N * 1 + (w 1%N * 1 + 0)) == 5 - (w 0%N + w 1%N)) by ring. rewrite E1, E2. ring.
+Qed.
+
+Lemma ex_st_premises :
+  node_domain1 exV exfq exsc [] false 2 /\ node_domain exV exfq exsc [] false 2 /\
+  (* without additional starts *)
+  (forall Pn w, node_pathsST exV exE [] [] 2 Pn -> 2 <= node_klae_cost exV exfq exsc [] 2 Pn w) /\
+  (forall Pn w sl, node_kmpe_choiceST exV exE [] [] exfq exsc [] false 2 Pn w sl -> 1 <= sumq sl (layers 2)) /\
+  (* with node 2 as additional start *)
+  node_pathsST exV exE [2%N] [] 2 exPn2 /\ node_adm false 2 exw2 /\
+  node_klae_cost exV exfq exsc [] 2 exPn2 exw2 == 0 /\
+  node_kmpe_choiceST exV exE [2%N] [] exfq exsc [] false 2 exPn2 exw2 (fun _ => 0) /\ sumq (fun _ : N => 0) (layers 2) == 0.
+Proof.
+  assert (HP2 : node_pathsST exV exE [2%N] [] 2 exPn2).
+  { intros i Hi. cbn in Hi. destruct Hi as [<-|[<-|[]]]; unfold exPn2; cbn [N.eqb Pos.eqb N.of_nat]; unfold nwalk;
+      (split; [discriminate|]); (split; [intros x Hx; cbn in Hx |- *; tauto|]); (split; [intros e He; cbn in He |- *; tauto|]); split; reflexivity. }
+  assert (Hdom1 : node_domain1 exV exfq exsc [] false 2).
+  { split; [|split; [cbn; discriminate|lia]]. intros v Hv. cbn in Hv. unfold exsc.
+    destruct Hv as [<-|[<-|[]]]; cbn; (split; [lra|split; [lra|discriminate]]). }
+  assert (NB : nodes_basic exV [] exsc = [1; 2]%N) by reflexivity.
+  split; [exact Hdom1|].
+  split; [destruct Hdom1 as (H1 & H2 & H3); split; [intros v Hv; destruct (H1 v Hv) as (A & [B _] & C); auto|split; assumption]|].
+  split.
+  { intros Pn w HP. apply node_paths_nil_iff in HP. rewrite (ex_cost2 Pn w HP).
+    pose proof (Qle_Qabs (5 - (w 0%N + w 1%N))) as A. pose proof (Qle_Qabs (- (3 - (w 0%N + w 1%N)))) as B. rewrite Qabs_opp in B. lra. }
+  split.
+  { intros Pn w sl Hch. apply node_kmpe_choice_nil_iff in Hch. destruct Hch as (HP & _ & Herr).
+    destruct (ex_route _ (HP 0%N ltac:(cbn; tauto))) as [M1 M2]. destruct (ex_route _ (HP 1%N ltac:(cbn; tauto))) as [M3 M4].
+    pose proof (Herr 1%N ltac:(rewrite NB; cbn; tauto)) as H1. pose proof (Herr 2%N ltac:(rewrite NB; cbn; tauto)) as H2.
+    unfold node_explains, node_on in H1, H2. cbn [layers seq map sumq] in *. change (N.of_nat 0) with 0%N in *. change (N.of_nat 1) with 1%N in *.
+    rewrite M1, M3 in H1. rewrite M2, M4 in H2. cbn [indq exfq exsc N.eqb Pos.eqb] in H1, H2. unfold exsc in H1, H2.
+    apply Qabs_Qle_condition in H1, H2. lra. }
+  split; [exact HP2|].
+  split; [intros i _; unfold exw2; destruct (i =? 0)%N; (split; [lra|discriminate])|].
+  assert (Hzero : forall v, In v [1; 2]%N -> exfq v - node_explains 2 exPn2 exw2 v == 0).
+  { intros v Hv. unfold node_explains, node_on, exPn2, exw2. cbn [layers seq map sumq]. change (N.of_nat 0) with 0%N. change (N.of_nat 1) with 1%N.
+    cbn [N.eqb Pos.eqb]. cbn in Hv. destruct Hv as [<-|[<-|[]]]; cbn; ring. }
+  split.
+  { unfold node_klae_cost. rewrite NB. cbn [sumq]. rewrite (Hzero 1%N ltac:(cbn; tauto)), (Hzero 2%N ltac:(cbn; tauto)). unfold exsc. cbn. reflexivity. }
+  split; [|cbn; reflexivity].
+  split; [exact HP2|]. split.
+  - intros i _. unfold exw2. destruct (i =? 0)%N; (split; [lra|split; [discriminate|split; [lra|discriminate]]]).
+  - intros v Hv. rewrite NB in Hv. rewrite (Hzero v Hv).
+    assert (Z0 : node_explains 2 exPn2 (fun _ => 0) v == 0) by (unfold node_explains; cbn [layers seq map sumq]; ring).
+    rewrite Z0. unfold exsc. cbn. discriminate.
+Qed.
+
+Lemma ex_c07_st :
+  node_domain exV exfq exsc [] false 2 /\
+  (forall Pn w, node_pathsST exV exE [] [] 2 Pn -> 2 <= node_klae_cost exV exfq exsc [] 2 Pn w) /\
+  node_pathsST exV exE [2%N] [] 2 exPn2 /\ node_adm false 2 exw2 /\ node_klae_cost exV exfq exsc [] 2 exPn2 exw2 == 0.
+Proof. destruct ex_st_premises as (_ & H2 & H3 & _ & H5 & H6 & H7 & _). exact (conj H2 (conj H3 (conj H5 (conj H6 H7)))). Qed.
+Lemma ex_c08_st :
+  node_domain1 exV exfq exsc [] false 2 /\
+  (forall Pn w sl, node_kmpe_choiceST exV exE [] [] exfq exsc [] false 2 Pn w sl -> 1 <= sumq sl (layers 2)) /\
+  node_kmpe_choiceST exV exE [2%N] [] exfq exsc [] false 2 exPn2 exw2 (fun _ => 0) /\ sumq (fun _ : N => 0) (layers 2) == 0.
+Proof. destruct ex_st_premises as (H1 & _ & _ & H4 & _ & _ & _ & H8 & H9). exact (conj H1 (conj H4 (conj H8 H9))). Qed.
